@@ -129,6 +129,9 @@ func (propC02) Gen(r *Rng, run uint64, tier string) *Plan {
 		Msg: "token", States: true, Labels: "vocab", NoHuge: true, OffSecond: true}
 	if r.Bool(0.08) {
 		spec.NMin, spec.NMax, spec.RecMax = 10, 24, 3
+		if r.Bool(0.25) {
+			spec.NMin, spec.NMax, spec.RecMax = 30, 70, 2
+		}
 	}
 	if r.Bool(0.5) {
 		spec.NMin = 3
@@ -144,6 +147,23 @@ func (propC02) Gen(r *Rng, run uint64, tier string) *Plan {
 	// Query window: arbitrary nanoseconds around the log.
 	start := BaseNs - 20*sec + r.Int63n(50*sec)
 	end := start + 1 + r.Int63n(90*sec)
+	// Boundary classes of the nanosecond part: just below the next second,
+	// exactly on a second, one nanosecond past.
+	edge := func(ns int64) int64 {
+		switch x := r.Intn(100); {
+		case x < 8:
+			return ns - ns%sec + sec - 1 - r.Int63n(120)
+		case x < 12:
+			return ns - ns%sec
+		case x < 15:
+			return ns - ns%sec + 1
+		}
+		return ns
+	}
+	start, end = edge(start), edge(end)
+	if end <= start {
+		end = start + 1 + r.Int63n(90*sec)
+	}
 	rng := []int64{5 * sec, 30 * sec, 60 * sec, 120 * sec}[r.Intn(4)]
 	off := []int64{0, 0, 10 * sec, 60 * sec}[r.Intn(4)]
 	kind := []string{"log_range", "log_range", "log_instant", "metric_range", "metric_instant", "metric_binop"}[r.Intn(6)]
